@@ -7,7 +7,7 @@ for prop in $props; do
     [ -f "$patch" ] || continue
     case $prop in
       C17) args="--set max_reports=1 --set shrink_s=20" ;;
-      C11) args="--runs 300 --set max_reports=1 --set shrink_s=20" ;;
+      C11) args="--set max_reports=1 --set shrink_s=20" ;;
       C20) args="--set max_reports=1 --set shrink_s=20" ;;
       *) args="--runs 6000 --set max_reports=1 --set shrink_s=10" ;;
     esac
